@@ -4,6 +4,9 @@ import json, os, subprocess
 V = os.path.dirname(os.path.dirname(os.path.abspath(__file__)))
 
 CLAIMED = {
+    "C01": ("exploration", "seeded op-sequence simulation over hostile inputs: storage faults x delivery faults (chunking, Read-seam errors, continue-after-error) x allocation limit x call orders, with panic isolation, blocked-call watchdog and CPU-time deadlines",
+            "Every public call C01 lists is driven in seeded orders over faulted generated streams, field extremes, the 60 regression files, the fixture, container layouts and random bytes; any panic (checked build), blocked call, deadline miss or abnormal worker exit is a violation with a minimised replay. Sampling only.",
+            "Checked build (debug-assertions + overflow-checks). Hostile region rectangles are out of scope of C01 as stated. Known genuine defects are listed in known_findings.json by panic site + normalised message."),
     "C09": ("exploration", "seeded simulation of byte delivery (chunk schedules through the feed protocol, short reads through the Read seam) against a one-buffer reference decode",
             "Equality of every observable C09 names between a one-buffer decode and 3-6 seeded chunkings + 2 short-read runs per generated stream; samples the space of streams and chunkings, proves nothing beyond them.",
             "jxlgen (stub writer, Modular only) produces the valid streams; one real fixture; the decoder's own one-buffer decode is the reference (self-consistency oracle)."),
